@@ -132,7 +132,17 @@ def atomic_write_octave(
         }
 
     # Step 2: Check symlink at target
-    if path_obj.exists() and path_obj.is_symlink():
+    try:
+        target_exists = path_obj.exists()
+        target_is_symlink = target_exists and path_obj.is_symlink()
+    except OSError as e:
+        # Path.exists() re-raises EACCES/EIO/...: report it like every other failure
+        return {
+            "status": "error",
+            "error": f"Cannot access target path: {str(e)}",
+            "path": target_path,
+        }
+    if target_is_symlink:
         return {
             "status": "error",
             "error": "Cannot write to symlink target",
@@ -140,7 +150,7 @@ def atomic_write_octave(
         }
 
     # Step 3: CAS check if base_hash provided
-    if base_hash and path_obj.exists():
+    if base_hash and target_exists:
         try:
             existing_content = path_obj.read_text(encoding="utf-8")
             current_hash = compute_hash(existing_content)
